@@ -355,7 +355,8 @@ func runC03(tier string) int {
 	// up to the scale bound, and switches nested K deep
 	var scaled []engineProgram
 	for _, p := range scaledPrograms(tier) {
-		if strings.Contains(p.Desc, "switch with") || strings.Contains(p.Desc, "block kind 7 ") || strings.Contains(p.Desc, "block kind 8 ") {
+		mixedSwitch := strings.HasPrefix(p.Desc, "mixed nesting") && (strings.HasSuffix(p.Desc, "core 4") || strings.ContainsAny(p.Desc[:strings.Index(p.Desc, "]")], "78"))
+		if mixedSwitch || strings.Contains(p.Desc, "switch with") || strings.Contains(p.Desc, "block kind 7 ") || strings.Contains(p.Desc, "block kind 8 ") {
 			scaled = append(scaled, p)
 		}
 	}
